@@ -224,7 +224,12 @@ class MessageBatch:
                 record_timestamp = metadata.timestamp
             else:
                 record_timestamp = timestamp
-            offset = base_offset + metadata.offset
+            if base_offset == -1:
+                # The broker did not report where the batch is (duplicate
+                # sequence number): the record offsets are unknown as well
+                offset = -1
+            else:
+                offset = base_offset + metadata.offset
             future.set_result(
                 _record_metadata_class(
                     topic,
